@@ -37,3 +37,29 @@ Lemma component_ctor_witness :
   (exists c, mk_component Gen.Tables_v2_5.tables STRICT (Some (unbs "VARIES_1")) (Some (unbs "CE")) None = Ok c) /\
   mk_component Gen.Tables_v2_5.tables TOLERANT (Some (unbs "VARIES_1")) (Some (unbs "CE")) None = Err (HL7 EChildNotFound).
 Proof. split; [eexists|]; vm_compute; reflexivity. Qed.
+
+(* ---- the leaf layer with the datatype factories plugged in (Model/LeafFull.v) ---- *)
+From HL7 Require Import Model.LeafFull.
+From HL7 Require Proofs.DatatypesNum.
+
+Lemma leaf_enc_full_subset v e dt s x :
+  leaf_enc_full v STRICT e dt s = Ok x -> leaf_enc_full v TOLERANT e dt s = Ok x.
+Proof.
+  unfold leaf_enc_full. destruct dt as [d|]; [|discriminate].
+  destruct (dt_row v d) as [[k mx]|]; [|apply leaf_enc_subset].
+  destruct (is_five k).
+  - cbn [dlevel].
+    destruct (Datatypes.factory v Datatypes.STRICT d e s) as [[fb t0]|] eqn:F; [|discriminate].
+    destruct (Proofs.DatatypesNum.factory_strict_ok _ _ _ _ _ _ F) as [_ ->]. auto.
+  - destruct k; try apply leaf_enc_subset.
+    destruct (tn_ok s); [apply leaf_enc_subset|]. cbn [is_strict]. discriminate.
+Qed.
+
+Theorem shipped_parse_segment_subset_full v t e text reference s : tables_of v = Some t ->
+  parse_segment t STRICT e (leaf_enc_full v STRICT e) text reference = Ok s ->
+  parse_segment t TOLERANT e (leaf_enc_full v TOLERANT e) text reference = Ok s.
+Proof.
+  intros Ht. destruct (shipped_sim_facts v t Ht) as [Hst Hnb].
+  exact (parse_segment_subset t e (leaf_enc_full v STRICT e) (leaf_enc_full v TOLERANT e) (leaf_enc_full_subset v e) Hst Hnb
+                              text reference s).
+Qed.
